@@ -273,6 +273,29 @@ class KaniBuild:
                                      ["synonym.emitted_mnemonic_exists_in_interpreter", "synonym.spelling_known_to_reference", "synonym.same_intel_predicate"],
                                      "production", p.sig + "  (assembler)", prs, {"kind": "synonym", "spelling": sp}, group="synonym")
             nsyn += 1
+        # ---- assembler spelling tables: every `quote_x = "SPELLING" => "mnemonic".to_owned()` production returns the
+        #      lower-case spelling (or its documented synonym); a wrong entry makes one spelling mean another instruction
+        TABLES = {"quote_control_supported": ["C08"], "quote_binary_arithmetic": ["C01"], "quote_unary_arithmetic": ["C01", "C03"],
+                  "quote_singleton_arithmetic": ["C03"], "quote_binary_logical": ["C02"], "quote_shift_rotate": ["C02"],
+                  "quote_singleton_transfer": ["C05"], "quote_condition_repeat": ["C07"], "quote_condition_repeat_opcode": ["C07"],
+                  "quote_repeat_opcode": ["C07"], "gen_byte_reg": ["C04", "C05"], "gen_word_reg": ["C04", "C05"], "reg_cl": ["C04", "C02"],
+                  "base_reg": ["C04"], "index_reg": ["C04"], "seg_reg": ["C04", "C05"], "pop_reg": ["C05"],
+                  "quote_byte_length": ["C04"], "quote_word_length": ["C04"]}
+        ALIAS = {"shl": "sal", "repe": "repz", "repne": "repnz"}
+        for p in pprods:
+            if p.nt not in TABLES or len(p.syms) != 1 or not kani_l3.is_term(p.syms[0]) or pacts[p.action].ret != "String":
+                continue
+            sp = kani_l3.term_text(p.syms[0])
+            want = ALIAS.get(sp.lower(), sp.lower())
+            hname = f"h_pp_{p.nt}_{sp}"
+            body = (f"        let ctx = {V}::forged::<util::Context>();\n        let out = {V}::forged::<util::Output>();\n"
+                    f"        let r: String = __action{p.action}(ctx, out, \"\", (0, \"\", 0));\n"
+                    f"        assert!(r.as_str() == \"{want}\", \"table.spelling_emits_its_mnemonic\");\n"
+                    f"        kani::cover!(true, \"reachable\");")
+            pmod += ["    #[kani::proof]", "    #[kani::unwind(16)]", f"    fn {hname}() {{", body, "    }"]
+            self.units[hname] = Unit(hname, TABLES[p.nt], "P", ["table.spelling_emits_its_mnemonic"], "production",
+                                     p.sig + "  (assembler)", prs, {"kind": "table", "spelling": sp}, group="pp_table")
+            nsyn += 1
         pmod.append("}")
         if nsyn:
             an.append(prs, "\n".join(pmod) + "\n")
